@@ -80,6 +80,8 @@ type Scenario struct {
 	NoDeadlines  bool   `json:"no_deadlines,omitempty"`   // tcp: the server's connections are of a kind that does not support deadlines; Shutdown cannot interrupt their reads and has to wait for the clients to go - everything else it promises still holds
 	SockoptFail  bool   `json:"sockopt_fail,omitempty"`   // tcp: the connections the server accepts refuse every TCP-only socket option
 	CloseStallMs int    `json:"close_stall_ms,omitempty"` // tcp / tls, instrumented build: closing a connection takes up to this much simulated time
+	Again        bool   `json:"again,omitempty"`          // when the shutdown has completed and the serve call has returned, the same Server value is started once more - on new sockets, with the same clients and handler plans - and shut down again: a second life, after the first is over (not a restart into a drain)
+	TrialShut    bool   `json:"trial_shut,omitempty"`     // fail_start noreader: a Shutdown is issued while the start that cannot succeed is under way (no other start follows): it may be accepted or refused, it must come back
 	ShutB        bool   `json:"shutdown_b,omitempty"`     // a second, concurrent Shutdown
 	Shut3        bool   `json:"shutdown_3,omitempty"`     // a Shutdown after the first has returned
 }
@@ -179,7 +181,16 @@ func Gen(seed uint64, tier string) any {
 			sc.Transient = append(sc.Transient, sc.Transient[0]+1+r.IntN(2))
 		}
 	}
-	if sc.Transport != "udp" && len(sc.Transient) == 0 && !sc.Start2 && !sc.Early && sc.FailStart == "" && core.Chance(r, 6) {
+	if !sc.Start2 && !sc.Early && sc.FailStart == "" && core.Chance(r, 15) {
+		sc.Again = true
+		if sc.ShutKind == "ctx" {
+			sc.CtxMs = core.Pick(r, 1000, 1000, 60000) // (a context the first shutdown is likely to beat; it expires during the second life)
+		}
+	}
+	if sc.FailStart == "noreader" && core.Chance(r, 50) {
+		sc.TrialShut = true
+	}
+	if sc.Transport != "udp" && len(sc.Transient) == 0 && !sc.Start2 && !sc.Early && sc.FailStart == "" && !sc.Again && core.Chance(r, 6) {
 		// (not together with a second start: the serve call that ends early would let the second one begin after the shutdown - a restart, which the property does not cover)
 		sc.FatalAccept = 1 + r.IntN(3)
 	}
@@ -248,6 +259,7 @@ func Shrink(x any) []any {
 	flag(func(n *Scenario) *bool { return &n.CloseErr })
 	flag(func(n *Scenario) *bool { return &n.OwnErr })
 	flag(func(n *Scenario) *bool { return &n.OwnReader })
+	flag(func(n *Scenario) *bool { return &n.Again })
 	flag(func(n *Scenario) *bool { return &n.NoDeadlines })
 	if sc.FailStart != "" {
 		n := cp()
@@ -551,6 +563,8 @@ type serveTask struct {
 //go:norace
 func (s *serveTask) RunEvent(time.Time) {
 	x, k := s.x, s.x.k
+	k.Observe() // (a second life begins when the first is over: its calls have returned)
+	defer k.Announce()
 	if s.after > 0 {
 		k.WaitSteps("life.wait", s.after, time.Millisecond)
 	}
@@ -629,6 +643,12 @@ func (s *serveTask) RunEvent(time.Time) {
 			x.res.Fail("S5", "shutdown-after-failed-start", "after a ListenAndServe that failed (%v), Shutdown returned %v instead of reporting that the server is not started", err, serr)
 			k.Unlock()
 		}
+		if x.trialOnly() {
+			k.Lock()
+			x.trialOver = true
+			k.Unlock()
+			return // no other start follows: this life is about the Shutdown that met the failing one
+		}
 	}
 start:
 	k.Lock()
@@ -648,6 +668,13 @@ start:
 	s.c.ret, s.c.retSeq, s.c.retT, s.c.err = true, k.Seq, time.Now(), common.ErrStr(err)
 	k.EffectLocked("ret " + s.c.name + " " + s.c.err)
 	k.Unlock()
+}
+
+// trialOnly: the only start of this life is one that cannot succeed, and a Shutdown is issued while it is under way.
+//
+//go:norace
+func (x *run) trialOnly() bool {
+	return x.sc.TrialShut && x.sc.FailStart == "noreader" && !x.sc.Start2 && !x.sc.Early
 }
 
 //go:norace
@@ -719,7 +746,17 @@ func (s startSettled) Holds() bool {
 //go:norace
 func (l *lifeTask) RunEvent(time.Time) {
 	x, k, sc := l.x, l.x.k, l.x.sc
+	k.Observe()
 	defer x.fin(&x.lifeFin)
+	if x.trialOnly() {
+		// the Shutdown meets the start that cannot succeed at some point of its way; whether it is accepted
+		// (the server counted as started just then) or refused, it has to come back
+		k.WaitSteps("life.wait", sc.ShutAfter%14, time.Millisecond)
+		c := x.newCall("shutdown", "shutdown-A")
+		k.Bump("fault.shutdown_during_failing_start")
+		x.shutdown(c, sc.ShutKind, max(sc.CtxMs, 1000))
+		return
+	}
 	if sc.FailStart == "noreader" && !sc.Start2 && !sc.Early {
 		// that failed start marks the server as started for a moment; a Shutdown
 		// overlapping it would be a shutdown of another start than the one under test
@@ -774,6 +811,7 @@ type shutBTask struct{ x *run }
 //go:norace
 func (s *shutBTask) RunEvent(time.Time) {
 	x, k := s.x, s.x.k
+	k.Observe()
 	defer x.fin(&x.shutBFin)
 	if !k.Wait("shutB.wait", 0, common.Flag{V: &x.shutCalled}, 0) {
 		return
@@ -995,6 +1033,9 @@ func (d doneCheck) Check(time.Time) string {
 			return ""
 		}
 	}
+	if x.trialOnly() && !x.trialOver {
+		return ""
+	}
 	return "done"
 }
 
@@ -1011,7 +1052,7 @@ func Run(t *testing.T, scAny any, verbose bool) *core.Result {
 
 //go:norace
 func runIn(sc *Scenario, res *core.Result, verbose bool) {
-	k := kernel.New(kernel.Config{Seed: sc.RunSeed, Strategy: sc.Strategy, PCTDepth: sc.PCTDepth, PCTSpan: 60 + sc.ShutAfter, Verbose: verbose, MaxSteps: 20000})
+	k := kernel.New(kernel.Config{Seed: sc.RunSeed, Strategy: sc.Strategy, PCTDepth: sc.PCTDepth, PCTSpan: 60 + sc.ShutAfter, Verbose: verbose, MaxSteps: 40000})
 	kernel.SetCurrent(k)
 	defer kernel.SetCurrent(nil)
 	n := simnet.New(k)
@@ -1019,9 +1060,44 @@ func runIn(sc *Scenario, res *core.Result, verbose bool) {
 	n.Stream = simnet.StreamLink{MinDelay: time.Duration(sc.DelayMs) * time.Millisecond, Jitter: time.Duration(sc.JitterMs) * time.Millisecond, SegMode: sc.SegMode, ShortRead: sc.ShortRead}
 	n.Dgram = simnet.DgramLink{MinDelay: time.Duration(sc.DelayMs) * time.Millisecond, Jitter: time.Duration(sc.JitterMs) * time.Millisecond}
 	n.CloseYields = core.Mode == "instr"
-	x := &run{sc: sc, k: k, n: n, res: res, ops: map[string]*opState{}, cliClosed: map[int]uint64{}, cliFin: make([]bool, len(sc.Clients))}
-	srv := &dns.Server{Handler: x, NotifyStartedFunc: x.notifyStarted, MaxTCPQueries: sc.MaxTCPQ, UDPSize: 4096}
-	x.srv = srv
+	srv := &dns.Server{MaxTCPQueries: sc.MaxTCPQ, UDPSize: 4096}
+	start0 := time.Now()
+	lives := 1
+	if sc.Again {
+		lives = 2
+	}
+	for life := 1; life <= lives; life++ {
+		x := &run{sc: sc, k: k, n: n, res: res, ops: map[string]*opState{}, cliClosed: map[int]uint64{}, cliFin: make([]bool, len(sc.Clients))}
+		srv.Handler, srv.NotifyStartedFunc = x, x.notifyStarted
+		srv.Listener, srv.PacketConn = nil, nil
+		x.srv = srv
+		more := runLife(sc, res, k, n, x, life)
+		if !more || res.Verdict != core.OK {
+			break
+		}
+		if life < lives {
+			res.Bump("cover.second_life_of_the_same_server")
+		}
+	}
+	res.Steps = k.Steps
+	res.SimNS = int64(time.Since(start0))
+	res.Digest = k.Digest()
+	for name, v := range k.Stats {
+		res.Stats[name] += v
+	}
+	if verbose {
+		res.Log = k.Log
+	}
+	k.Abort()
+}
+
+// runLife sets the sockets up, starts the tasks of one life of the server, runs the kernel until they are done
+// and judges that life. It reports whether another life may follow: the shutdown completed, the serve call
+// returned nil.
+//
+//go:norace
+func runLife(sc *Scenario, res *core.Result, k *kernel.K, n *simnet.Net, x *run, life int) bool {
+	srv := x.srv
 	if sc.Long {
 		srv.ReadTimeout = time.Hour
 		srv.IdleTimeout = hourIdle
@@ -1109,9 +1185,10 @@ func runIn(sc *Scenario, res *core.Result, verbose bool) {
 			}
 		}
 	}
-	start0 := time.Now()
 	c1 := &call{kind: "start", name: "start-1"}
-	x.calls = append(x.calls, c1)
+	if !x.trialOnly() {
+		x.calls = append(x.calls, c1)
+	}
 	k.Go("serve1", &serveTask{x: x, c: c1, after: sc.ServeAfter})
 	if sc.Start2 && !sc.Early { // a start issued after an accepted shutdown is a restart, which the property does not cover
 		c2 := &call{kind: "start", name: "start-2"}
@@ -1126,19 +1203,20 @@ func runIn(sc *Scenario, res *core.Result, verbose bool) {
 		k.Go("client"+strconv.Itoa(ci), &clientTask{x, ci})
 	}
 	out := k.Run(doneCheck{x})
-	res.Steps = k.Steps
-	res.SimNS = int64(time.Since(start0))
 	x.judge(out)
-	res.Digest = k.Digest()
-	for name, v := range k.Stats {
-		res.Stats[name] += v
+	if out != kernel.Finished || res.Verdict != core.OK {
+		return false
 	}
-	if verbose {
-		res.Log = k.Log
+	// another life only after a shutdown that completed and a serve call that came back with nil
+	for _, c := range x.calls {
+		if c.kind == "shutdown" && c.ret && c.ctx != nil && c.err != "" {
+			return false
+		}
+		if c.kind == "start" && c.callSeq > 0 && c.err != "" && c.retSeq > 0 && !strings.Contains(c.name, "start-2") {
+			return false
+		}
 	}
-	k.Abort()
-	// close whatever the scenario left open so that only library-side leaks
-	// keep the bubble from ending
+	return true
 }
 
 //go:norace
@@ -1163,6 +1241,26 @@ func (x *run) judge(outcome string) {
 			return
 		}
 		res.Fail("S9", "deadlock", "simulated deadlock: nothing enabled, nothing pending; unfinished: %s; parked: %v", x.unfinished(), k.Parked())
+		return
+	}
+	if x.trialOnly() {
+		// a life that consists of a start that cannot succeed and a Shutdown that met it: both came back (or
+		// the kernel would have gone quiet above), and the Shutdown did so promptly - with nil when it caught
+		// the server counted as started, with a refusal otherwise
+		for _, c := range x.calls {
+			if c.kind != "shutdown" {
+				continue
+			}
+			res.Bump("oracle.S5_shutdown_meets_failing_start")
+			if d := c.retT.Sub(c.callT); d > time.Second && (c.ctx == nil || c.err == "") {
+				res.Fail("S5", "shutdown-slow-around-failed-start", "%s, issued while a start that cannot succeed was under way, came back only after %v of simulated time (%q)", c.name, d, c.err)
+			}
+			if c.ctx != nil && c.err == "context deadline exceeded" {
+				res.Fail("S5", "shutdown-blocks-around-failed-start", "%s, issued while a start that cannot succeed was under way, waited until its context expired: nothing was there to wait for", c.name)
+			}
+		}
+		res.Nontrivial = true
+		res.Class = fmt.Sprintf("%s/%s/trial-only", sc.Transport, core.Mode)
 		return
 	}
 	// classify calls
